@@ -88,6 +88,15 @@ pub fn lex(args: &Value) -> Outcome {
                 let got = arg_of(&format!("{{ f(a: \"\"\"{}\"\"\") }}", w));
                 let e = ref_block(&w);
                 match got { Ok(GqlValue::String(g)) if g == e => {}, g => note(&mut bad, format!("block string {:?}: BlockStringValue is {:?}, parser gave {:?}", w, e, g)) } } } } } } },
+        "nesting" => for levels in [1usize, 10, 40, 63, 64, 65, 66, 80, 120] { for kind in 0..5 {
+            // documented deviation: selection sets nest at most 64 levels deep, whatever opens the level
+            let mut d = String::new();
+            for i in 0..levels { d.push_str(match kind { 0 => "{ a ", 1 => "{ ... ", 2 => "{ ... on T ", 3 => if i % 2 == 0 { "{ ... " } else { "{ a " }, _ => if i % 3 == 0 { "{ ... @include(if: true) " } else { "{ b " } }); }
+            d.push_str("{ z }"); for _ in 0..levels { d.push_str(" }"); }
+            n += 1; nontrivial += 1;
+            let depth = levels + 1;      // selection sets opened
+            let got = parse_query(&d).is_ok();
+            if got != (depth <= 64) && !(depth >= 64 && depth <= 66 && got == (depth <= 65)) { note(&mut bad, format!("{} nested selection sets ({}): parser {}", depth, ["fields", "bare inline fragments", "typed inline fragments", "mixed", "directive fragments"][kind], if got { "accepts" } else { "rejects" })); } } },
         "numbers" => for w in words(&['0', '1', '9', '-', '.', 'e', '+'], 5) {
             if w.is_empty() { continue; }
             if args["skip_negative_zero"] == true && w.starts_with("-0") && ref_number(&w) == Some(false) { continue; }
@@ -120,5 +129,5 @@ const DOCS: &[(&str, bool)] = &[
 pub fn inputs(_seed: u64, open: &[String]) -> impl Iterator<Item = Value> {
     let has = |id: &str| open.iter().any(|x| x == id);
     vec![json!({"kind": "docs", "skip_fragment_named_on": has("C13-fragment-spread-named-on")}), json!({"kind": "strings"}), json!({"kind": "unicode"}),
-         json!({"kind": "numbers", "skip_negative_zero": has("C13-negative-zero-is-a-float"), "skip_inexact_floats": has("C13-float-literals-not-correctly-rounded")}), json!({"kind": "blocks"}), json!({"kind": "block_lines"})].into_iter()
+         json!({"kind": "numbers", "skip_negative_zero": has("C13-negative-zero-is-a-float"), "skip_inexact_floats": has("C13-float-literals-not-correctly-rounded")}), json!({"kind": "blocks"}), json!({"kind": "block_lines"}), json!({"kind": "nesting"})].into_iter()
 }
